@@ -7,7 +7,8 @@ from pedal.core.final_feedback import FinalFeedback
 from pedal.core.report import Report
 from pedal.core.scoring import Score
 
-CLASS_CONSTS = {Feedback: ['NEGATIVE_VALENCE', 'POSITIVE_VALENCE', 'NEUTRAL_VALENCE']}
+CLASS_CONSTS = {Feedback: ['NEGATIVE_VALENCE', 'POSITIVE_VALENCE', 'NEUTRAL_VALENCE'],
+                FinalFeedback: ['DEFAULT_NO_FEEDBACK_TITLE', 'DEFAULT_NO_FEEDBACK_MESSAGE', 'DEFAULT_NO_FEEDBACK_LABEL']}
 INSTANCE_CLASSES = [Feedback, FinalFeedback, Report, Score]
 TRUTH = {Feedback: 'fb_truth'}
 
@@ -89,7 +90,7 @@ def any_match(L, fields):
 
 @spec
 def suppressed_by_category(fb, S):
-    cat = lower(fb.category)
+    cat = 'uncategorized' if fb.category is None else lower(fb.category)
     lab = lower(fb.label)
     return has_key(S, cat) and (has_key(at(S, cat), True) or
                                 (has_key(at(S, cat), lab) and any_match(at(at(S, cat), lab), fb.fields)))
